@@ -115,6 +115,57 @@ def mutate(rng, text):
     return bytes(t)
 
 
+def number_torture(rng):
+    """a short word over the alphabet of numbers (digits . e E + -), bare or inside a container: every confusion of the
+    number scanner's flags (second exponent, second point, sign after digit, point after exponent) at every split"""
+    n = rng.randrange(2, 11)
+    w = bytes(rng.choice(b"0123456789") if rng.chance(0.5) else rng.choice(b"..eeEE+-") for _ in range(n))
+    if rng.chance(0.5):
+        # a well-formed prefix with point and exponent, then junk from the same alphabet
+        w = rng.choice([b"1.5E3", b"-0.25e-2", b"2e5", b"1.0", b"10E+1"]) + w[:rng.randrange(1, 4)]
+    return rng.choice([b"%s", b"[%s]", b"%s ", b"[%s,1]", b'{"a":%s}', b"[%s ]"]) % w
+
+
+def escape_torture(rng):
+    """a string made of \\u escapes around the surrogate rules, some of them damaged (a non-hex character in any of the four
+    positions, a missing digit, a missing backslash or u): every path through the escape states at every split"""
+    HI = [b"d83d", b"D800", b"dbff", b"DBFF", b"d800"]
+    LO = [b"dc00", b"DFFF", b"de00", b"dd1e", b"DC00"]
+    BMP = [b"0041", b"00e9", b"20ac", b"ffff", b"0000", b"1241", b"d7ff", b"e000"]
+    out = b""
+    for _ in range(rng.randrange(1, 4)):
+        h = bytearray(rng.choice(HI + HI + LO + BMP))
+        k = rng.random()
+        if k < 0.3:
+            h[rng.randrange(4)] = rng.choice(b"gGtTxzZ-+ .")
+        elif k < 0.4:
+            del h[rng.randrange(4)]
+        unit = b"\\u" + bytes(h)
+        if rng.chance(0.1):
+            unit = rng.choice([b"u" + bytes(h), b"\\" + bytes(h), b"\\U" + bytes(h)])
+        out += unit
+        if rng.chance(0.25):
+            out += rng.choice([b"x", b"\\n", b"\\", b" ", b"\xc3\xa9"])
+    return rng.choice([b'"%s"', b'["%s"]', b'{"%s":1}', b'"%s" ']) % out
+
+
+UTF8_EDGE = [0xC0, 0xC1, 0xC2, 0xDF, 0xE0, 0xE0, 0xE1, 0xEC, 0xED, 0xEE, 0xEF, 0xF0, 0xF0, 0xF1, 0xF3, 0xF4, 0xF5, 0xF8, 0xFF,
+             0x80, 0x8F, 0x90, 0x9F, 0xA0, 0xBF, 0x7F, 0x41]
+
+
+def utf8_torture(rng):
+    """a string of lead / continuation bytes at the boundaries of the UTF-8 table (overlong, surrogate range, beyond U+10FFFF,
+    truncated sequences), ending anywhere - also exactly after a lead byte (for JSON_TOKENER_VALIDATE_UTF8)"""
+    body = bytes(rng.choice(UTF8_EDGE) for _ in range(rng.randrange(1, 7)))
+    if rng.chance(0.4):
+        body += rng.choice(["\u00e9", "\u20ac", "\U0001F600", "\u0800", "\ud7ff"]).encode("utf-8")[:rng.randrange(1, 5)]
+    return rng.choice([b'"%s"', b'"%s', b'["a%s"]', b'{"%s":0}', b'"%s" ', b"%s"]) % body
+
+
+def torture(rng):
+    return rng.choice([number_torture, escape_torture, utf8_torture])(rng)
+
+
 def random_bytes(rng, n):
     alph = b'[]{}:,"\\/ \n\t0123456789-+.eEtrufalsn\'*IiNnTF\x00\xff\xc3\xa9'
     return bytes(rng.choice(alph) if rng.chance(0.85) else rng.randrange(256) for _ in range(n))
